@@ -262,9 +262,9 @@ def verify(cref, level="quick", repo=REPO, max_paths=20000, parallel=True, budge
             res.max_paths_hit = True
             res.budget_exhausted = True
             for fut in list(pending):
-                fut.cancel()
-            if forks or pending:
-                continue
+                if fut.cancel():
+                    pending.pop(fut, None)
+            continue
         if res.paths + len(pending) < max_paths:
             for f in forks:
                 submit(shape, f)
